@@ -36,10 +36,18 @@ const viewMapFn = `function(doc, meta) {
   emit([tag, v, (x._s && x._s.t) ? x._s.t : null], [a, (x.u && x.u.t) ? x.u.t : null, (x._t && x._t.t) ? x._t.t : null]);
 }`
 
-func viewDDoc() *sgbucket.DesignDoc {
+func viewDDoc() *sgbucket.DesignDoc { return viewDDocVariant("A") }
+
+// viewDDocVariant: variant "B" replaces the design document by one whose map function only emits documents that
+// have v = "J1" or a _s xattr (C12: design-document replacement).
+func viewDDocVariant(variant string) *sgbucket.DesignDoc {
+	fn := viewMapFn
+	if variant == "B" {
+		fn = strings.Replace(viewMapFn, "  emit(", "  if (v === 'J1' || (x._s && x._s.t)) emit(", 1)
+	}
 	return &sgbucket.DesignDoc{Language: "javascript", Views: sgbucket.ViewMap{
-		"v":   sgbucket.ViewDef{Map: viewMapFn},
-		"cnt": sgbucket.ViewDef{Map: viewMapFn, Reduce: "_count"},
+		"v":   sgbucket.ViewDef{Map: fn},
+		"cnt": sgbucket.ViewDef{Map: fn, Reduce: "_count"},
 	}}
 }
 
